@@ -1,4 +1,5 @@
 """Worker process: python -m mc.worker <harness> <read_fd> <write_fd>."""
+import gc
 import importlib
 import os
 import sys
@@ -30,6 +31,8 @@ def main():
         except BaseException:
             res = {"internal_error": traceback.format_exc()}
         _send(wfd, res)
+        del res, msg
+        gc.collect()
     os._exit(0)
 
 
